@@ -1,0 +1,75 @@
+//go:build verif
+
+package generator
+
+// Contracts for output assembly (property C12). Comment-only file, read by /verif/engine (govc).
+
+// Representation invariant of FileManager: index is exactly the inverse of files[i].Name.
+//@ pure func wfFM(fm *FileManager) bool { return fm != nil && fm.index != nil && fm.patch != nil && fm.count != nil && fm.index != fm.count && (forall i int :: 0 <= i && i < len(fm.files) ==> fm.files[i] != nil && fm.files[i].Name != nil && inDom(fm.index, *fm.files[i].Name) && fm.index[*fm.files[i].Name] == i) && (forall n string :: inDom(fm.index, n) ==> 0 <= fm.index[n] && fm.index[n] < len(fm.files) && *fm.files[fm.index[n]].Name == n) }
+
+// The files handed in are distinct objects that the manager does not hold yet.
+//@ pure func freshInput(fm *FileManager, files []*plugin.Generated) bool { return (forall a int :: 0 <= a && a < len(files) ==> files[a] != nil) && (forall a, b int :: 0 <= a && a < b && b < len(files) ==> files[a] != files[b]) && (forall a, j int :: 0 <= a && a < len(files) && 0 <= j && j < len(fm.files) ==> files[a] != fm.files[j]) }
+
+//@ func NewFileManager(log backend.LogFunc) *FileManager
+//@   ensures wfFM(result) && fresh(result) && len(result.files) == 0
+
+//@ func (fm *FileManager) Feed(src string, files []*plugin.Generated) error
+//@   requires wfFM(fm) && freshInput(fm, files)
+//@   ensures wfFM(fm)
+//@   ensures len(fm.files) >= old(len(fm.files))
+//@   ensures forall k int :: 0 <= k && k < old(len(fm.files)) ==> fm.files[k] == old(fm.files[k]) && *fm.files[k].Name == old(*fm.files[k].Name) && fm.files[k].Content == old(fm.files[k].Content)
+//@   ensures forall a, b int :: 0 <= a && a < b && b < len(fm.files) ==> *fm.files[a].Name != *fm.files[b].Name
+//@   ensures forall k int :: old(len(fm.files)) <= k && k < len(fm.files) ==> exists a int :: 0 <= a && a < len(files) && fm.files[k] == files[a]
+//@   ensures len(files) > 0 && old(files[0].Name) == nil ==> result != nil
+//@   modifies fm.files, contents(fm.index), contents(fm.patch), contents(fm.count), plugin.Generated.Name
+//@   loop 1 invariant wfFM(fm) && 0 <= i && i <= len(files)
+//@   loop 1 invariant last == "" || inDom(fm.index, last)
+//@   loop 1 invariant i == 0 ==> last == ""
+//@   loop 1 invariant i > 0 ==> old(files[0].Name) != nil
+//@   loop 1 invariant forall a int :: i <= a && a < len(files) ==> files[a].Name == old(files[a].Name)
+//@   loop 1 invariant forall k int :: old(len(fm.files)) <= k && k < len(fm.files) ==> exists a int :: 0 <= a && a < len(files) && fm.files[k] == files[a]
+//@   loop 1 invariant len(fm.files) >= old(len(fm.files))
+//@   loop 1 invariant forall k int :: 0 <= k && k < old(len(fm.files)) ==> fm.files[k] == old(fm.files[k]) && *fm.files[k].Name == old(*fm.files[k].Name) && fm.files[k].Content == old(fm.files[k].Content)
+//@   loop 1 invariant forall a, j int :: i <= a && a < len(files) && 0 <= j && j < len(fm.files) ==> files[a] != fm.files[j]
+//@   loop 1.1 invariant wfFM(fm) && 0 <= i && i < len(files) && f == files[i] && cnt >= 1
+//@   loop 1.1 invariant 0 <= idx && idx < len(fm.files) && 0 <= fst && fst < len(fm.files)
+//@   loop 1.1 invariant inDom(fm.index, name)
+//@   loop 1.1 invariant old(files[0].Name) != nil
+//@   loop 1.1 invariant forall a int :: i <= a && a < len(files) ==> files[a].Name == old(files[a].Name)
+//@   loop 1.1 invariant len(fm.files) >= old(len(fm.files))
+//@   loop 1.1 invariant forall k int :: old(len(fm.files)) <= k && k < len(fm.files) ==> exists a int :: 0 <= a && a < len(files) && fm.files[k] == files[a]
+//@   loop 1.1 invariant forall k int :: 0 <= k && k < old(len(fm.files)) ==> fm.files[k] == old(fm.files[k]) && *fm.files[k].Name == old(*fm.files[k].Name) && fm.files[k].Content == old(fm.files[k].Content)
+//@   loop 1.1 invariant forall a, j int :: i <= a && a < len(files) && 0 <= j && j < len(fm.files) ==> files[a] != fm.files[j]
+//@   loop 1.1.1 invariant wfFM(fm) && 0 <= i && j == i + 1 && j <= len(files)
+//@   loop 1.1.1 invariant forall a, j int :: i <= a && a < len(files) && 0 <= j && j < len(fm.files) ==> files[a] != fm.files[j]
+//@   loop 1.1.1 invariant len(fm.files) >= old(len(fm.files))
+//@   loop 1.1.1 invariant forall k int :: old(len(fm.files)) <= k && k < len(fm.files) ==> exists a int :: 0 <= a && a < len(files) && fm.files[k] == files[a]
+//@   loop 1.1.1 invariant forall k int :: 0 <= k && k < old(len(fm.files)) ==> fm.files[k] == old(fm.files[k]) && *fm.files[k].Name == old(*fm.files[k].Name) && fm.files[k].Content == old(fm.files[k].Content)
+//@   loop 1.1.1 invariant old(files[0].Name) != nil
+//@   loop 1.1.1 invariant forall a int :: i <= a && a < len(files) ==> files[a].Name == old(files[a].Name)
+//@   site assign:fm.index[renamed] assume-known-finding C12-rename-collision: !inDom(fm.index, renamed)
+
+// ---- insertion points ----
+
+//@ func newInsertionPointReplacer(content string) *insertionPointReplacer
+//@   trusted
+//@   ensures result != nil && fresh(result) && result.m != nil && fresh(result.m)
+
+//@ func (p *insertionPointReplacer) Add(x, content string)
+//@   requires p != nil && p.m != nil
+//@   ensures p.m[x] == old(p.m[x]) + content && inDom(p.m, x)
+//@   ensures forall y string :: y != x ==> p.m[y] == old(p.m[y]) && inDom(p.m, y) == old(inDom(p.m, y))
+//@   modifies contents(p.m)
+
+//@ func (p *insertionPointReplacer) Replace(content string) string
+//@   trusted
+//@   pure
+
+//@ func (fm *FileManager) BuildResponse() *plugin.Response
+//@   requires wfFM(fm)
+//@   requires forall n string; k int :: 0 <= k && k < len(fm.patch[n]) ==> fm.patch[n][k] != nil
+//@   ensures result != nil && fresh(result) && len(result.Contents) == len(fm.files)
+//@   ensures forall i int :: 0 <= i && i < len(fm.files) ==> result.Contents[i] != nil && fresh(result.Contents[i]) && result.Contents[i].Name == fm.files[i].Name
+//@   loop 1 invariant res != nil && fresh(res) && len(res.Contents) == $i
+//@   loop 1 invariant forall i int :: 0 <= i && i < $i ==> res.Contents[i] != nil && fresh(res.Contents[i]) && res.Contents[i].Name == fm.files[i].Name
+//@   loop 1.1 invariant x != nil && fresh(x) && x.m != nil && fresh(x.m)
